@@ -453,6 +453,15 @@ func rewriteFile(p *packages.Package, f *ast.File) bool {
 				if len(n.Args) == 1 && isChan(info, n.Args[0]) {
 					failf(fset, n.Pos(), "len/cap of a channel")
 				}
+			} else if sel, ok := n.Fun.(*ast.SelectorExpr); ok && sel.Sel.Name == "After" {
+				// time.After: the timer becomes a controlled thread, so that "the timer lands first" is a
+				// schedule the explorer can choose (a timeout is never a substitute for synchronisation)
+				if id, ok := sel.X.(*ast.Ident); ok {
+					if pn, ok := info.Uses[id].(*types.PkgName); ok && pn.Imported().Path() == "time" {
+						sel.X = ast.NewIdent("vrt")
+						changed, usesVrt = true, true
+					}
+				}
 			}
 		case *ast.RangeStmt:
 			if isChan(info, n.X) {
